@@ -77,6 +77,7 @@ struct Net {
     next_ip: Option<Ipv4Addr>,
     next_seed: u64,
     next_direct: bool,
+    next_first_tid: u32,
     ephemeral: u16,
 }
 fn net() -> &'static Mutex<Net> {
@@ -98,12 +99,23 @@ pub fn prepare_bind(ip: Ipv4Addr, seed: u64, direct: bool) {
     n.next_direct = direct;
 }
 
+/// Harness: the transaction id the next socket starts counting from (default 0).
+pub fn set_first_tid(tid: u32) {
+    net().lock().unwrap().next_first_tid = tid;
+}
+
+/// The first transaction id of a new socket; consumed by the socket's constructor.
+pub fn take_first_tid() -> u32 {
+    std::mem::take(&mut net().lock().unwrap().next_first_tid)
+}
+
 /// Harness: forget all simulated sockets and queued datagrams (between cases).
 pub fn reset_net() {
     let mut n = net().lock().unwrap();
     n.nodes.clear();
     n.outbox.clear();
     n.next_ip = None;
+    n.next_first_tid = 0;
     n.ephemeral = 40000;
 }
 
